@@ -4,6 +4,7 @@ import Efp.Proofs.Chain
 import Efp.Proofs.ChainTerm
 import Efp.Proofs.Links
 import Efp.Proofs.LinksUpdate
+import Efp.Proofs.EditCycle
 /-!
 # C08 — the calculation graph is consistent and complete
 
@@ -26,7 +27,9 @@ Swapping detach and attach in `replace…` (seed C08-a) breaks it (`attach_befor
 Values held in a dict: `replace_in_dict_keeps_links_mirrored` (unique ids), `no_relink_breaks_links`
 (seed C05-a), `shared_id_breaks_mirror` (the root of D2).  A *whole* accepted update keeps the
 graph consistent with the reads, every recorded ancestor live: `accepted_update_keeps_graph_consistent`
-(`Proofs/LinksUpdate.lean`), `build_gives_consistent_graph`.
+(`Proofs/LinksUpdate.lean`), `build_gives_consistent_graph`; and with the chain the *code itself* derives
+(Model C's port run on the graph exported from Model F's state): `edit_cycles_keep_graph_consistent`
+(`Proofs/EditCycle.lean`).
 *Complete* (every true read is a recorded ancestor) is a statement about the rules' bodies; it is
 tested by perturbation on the real code and is an assumption (H1) of C01's theorems.
 -/
@@ -162,7 +165,7 @@ theorem accepted_update_keeps_graph_consistent (reads : Efp.Links.Slot → List 
     (s s' : Efp.Links.LS) (hI : Efp.Links.Inv s) (hD : Efp.Links.NoDict s) (hC : Efp.Links.Consistent reads s)
     (h : L.foldlM (Efp.Links.refresh reads) s = .ok s') :
     Efp.Links.Consistent reads s' ∧ Efp.Links.Mirror s' ∧ Efp.Links.Uniq s' ∧ Efp.Links.Live s' := by
-  obtain ⟨c, i, l⟩ := Efp.Links.update_consistent reads L hreads hplain hclosed hordered s s' hI hD hC h
+  obtain ⟨c, i, l, _⟩ := Efp.Links.update_consistent reads L hreads hplain hclosed hordered s s' hI hD hC h
   exact ⟨c, i.mirror, i.slot.uniq, l⟩
 
 /-- … in particular building a model from nothing, attribute after attribute in an order that respects
@@ -173,9 +176,26 @@ theorem build_gives_consistent_graph (reads : Efp.Links.Slot → List Efp.Links.
     (hordered : ∀ l₁ n l₂, L = l₁ ++ n :: l₂ → ∀ m ∈ reads n, m ∉ l₂ ∧ m ≠ n)
     (s' : Efp.Links.LS) (h : L.foldlM (Efp.Links.refresh reads) {} = .ok s') :
     Efp.Links.Consistent reads s' ∧ Efp.Links.Live s' := by
-  obtain ⟨c, _, l⟩ := Efp.Links.update_consistent reads L hreads hplain hclosed hordered {} s'
+  obtain ⟨c, _, l, _⟩ := Efp.Links.update_consistent reads L hreads hplain hclosed hordered {} s'
     Efp.Links.init_inv (fun v sl hc => by cases hc) (fun sl v hv => by cases hv) h
   exact ⟨c, l⟩
+
+/-- **the engine's edit cycle keeps the graph consistent — Models C and F together**: in any consistent
+state, for any input attribute, the port of `attr_updates_chain` run on the exported graph terminates,
+and refreshing the input and then the attributes of the returned chain gives a consistent state again;
+hence after **any number of edits** (`editCycle` folds the cycle over a list of edited inputs) the graph
+has mirrored links, unique ids and only live ancestors.  `reads` must be well-founded (`rkS`) and every
+attribute that reads something must hold a value (a built model). -/
+theorem edit_cycles_keep_graph_consistent (reads : Efp.Links.Slot → List Efp.Links.Slot)
+    (rkS : Efp.Links.Slot → Nat) (B : Nat)
+    (hrk : ∀ n, ∀ m ∈ reads n, rkS m < rkS n) (hreads : ∀ n, (reads n).Nodup) (hB : ∀ sl, rkS sl ≤ B)
+    (edits : List Efp.Links.Slot) (hinputs : ∀ u ∈ edits, reads u = [])
+    (s s' : Efp.Links.LS) (hI : Efp.Links.Inv s) (hD : Efp.Links.NoDict s) (hC : Efp.Links.Consistent reads s)
+    (hbuilt : ∀ n, reads n ≠ [] → ∃ v, s.holds n = some v)
+    (h : edits.foldlM (Efp.Links.editCycle reads B) s = .ok s') :
+    Efp.Links.Consistent reads s' ∧ Efp.Links.Mirror s' ∧ Efp.Links.Uniq s' ∧ Efp.Links.Live s' := by
+  obtain ⟨c, i, l⟩ := Efp.Links.edit_cycles_consistent reads rkS B hrk hreads hB edits hinputs s s' hI hD hC hbuilt h
+  exact ⟨c, i.mirror, i.slot.uniq, l⟩
 
 /-! non-vacuity: input (0,0), (0,1) computed from it, (0,2) from both; built, then the input edited -/
 def demoReadsF : Efp.Links.Slot → List Efp.Links.Slot
@@ -185,6 +205,14 @@ def demoReadsF : Efp.Links.Slot → List Efp.Links.Slot
 example : (match ([(0, 0), (0, 1), (0, 2)] ++ [(0, 0), (0, 1), (0, 2)]).foldlM (Efp.Links.refresh demoReadsF) {} with
            | .ok s => (Efp.Links.mirrorOk s, Efp.Links.liveOk s, (s.get 5).anc, s.size)
            | .error _ => (false, false, [], 0)) = (true, true, [4, 3], 6) := by decide +kernel
+
+/-- the same model built by refreshes, then two edits of the input through the full cycle (chain derived by
+the port of `attr_updates_chain` on the exported graph): the cycle returns, links mirrored, ancestors live -/
+example : (match [(0, 0), (0, 1), (0, 2)].foldlM (Efp.Links.refresh demoReadsF) {} with
+           | .ok s => (match [(0, 0), (0, 0)].foldlM (Efp.Links.editCycle demoReadsF 2) s with
+                       | .ok s' => (Efp.Links.mirrorOk s', Efp.Links.liveOk s', s'.size)
+                       | .error _ => (false, false, 0))
+           | .error _ => (false, false, 0)) = (true, true, 9) := by decide +kernel
 
 /-- the state in which a calculated value 1 (slot (0,1)) depends on an input 0 (slot (0,0)) and a
 freshly computed replacement 2 with the same ancestor exists -/
